@@ -19,9 +19,9 @@ def passed(out):
     res = re.findall(r"test result: (\w+)\. (\d+) passed; (\d+) failed", out)
     return bool(res) and all(r[0] == "ok" for r in res) and "error: could not compile" not in out, sum(int(r[1]) for r in res), sum(int(r[2]) for r in res)
 def one(prop):
-    wt = "/tmp/seed/" + prop
+    wt = os.environ.get("SEED_WT_ROOT", "/tmp/seed") + "/" + prop
     rows = []
-    for v in ("a", "b"):
+    for v in os.environ.get("SEED_VARIANTS", "a,b").split(","):
         d = os.path.join(OUT, prop, v)
         if not os.path.exists(os.path.join(d, "patch.diff")):
             continue
@@ -65,5 +65,5 @@ def one(prop):
 props = sys.argv[1:] or ["C%02d" % i for i in range(1, 21)]
 with ThreadPoolExecutor(3) as ex:
     allrows = sum(ex.map(one, props), [])
-json.dump(allrows, open("/tmp/seed/verify_results.json", "w"), indent=1)
+json.dump(allrows, open("/tmp/seed/verify_results_%s.json" % os.environ.get("SEED_VARIANTS", "ab").replace(",", ""), "w"), indent=1)
 print("confirmed", sum(1 for r in allrows if r["confirmed"]), "of", len(allrows))
